@@ -569,7 +569,9 @@ where
             child_idx <= self.children.len(),
             "checkpoint no longer valid after reverting to an earlier checkpoint"
         );
-        if let Some(&(_, first_child)) = self.parents.last() {
+        // NOTE: Nodes started since the checkpoint are discarded below, so the relevant parent is the innermost one
+        // that was already open when the checkpoint was taken (and that remains open after reverting).
+        if let Some(&(_, first_child)) = parent_idx.checked_sub(1).and_then(|idx| self.parents.get(idx)) {
             assert!(
                 child_idx >= first_child,
                 "checkpoint no longer valid, was an unmatched start_node_at called?"
